@@ -264,6 +264,49 @@ TAGS = {'TRACEV3_DYLD_MODULES': 'dyld_modules', 'TRACEV3_TRACE_CODES': 'trace_co
         'TRACEV3_LOG_STRINGS': 'log_strings'}
 
 
+def acc_slots(it, fr, state):
+    """access paths of the two accumulators of the block loop that are not attributes of the parser - the list of raw log
+    records and the string index - found by their initial values ([] and {}) among the locals and the fields of objects held in
+    locals; remembered for the rest of the run"""
+    if 'acc_slots' in state:
+        return state['acc_slots']
+
+    def paths_of(pred):
+        out = []
+        for nm, v in list(fr.vars.items()):
+            if nm.startswith('$') or nm == 'self':
+                continue
+            if pred(v):
+                out.append((nm, None))
+            if isinstance(v, Obj) and v.cls.kind in ('plain', 'dataclass'):
+                for f_, fv in v.fields.items():
+                    if pred(fv):
+                        out.append((nm, f_))
+        return out
+    lists = paths_of(lambda v: isinstance(v, PList) and v.is_concrete() and not v.values())
+    dicts = paths_of(lambda v: isinstance(v, PDict) and not v.keys())
+    if len(lists) != 1 or len(dicts) != 1:
+        raise Unsupported('the block loop of parse_v3 keeps its log accumulators in %d list(s) and %d dict(s): the loop rule of the '
+                          'contract does not apply to this shape' % (len(lists), len(dicts)))
+    state['acc_slots'] = {'log_events': lists[0], 'log_strings': dicts[0]}
+    return state['acc_slots']
+
+
+def slot_get(it, fr, state, what):
+    nm, f_ = acc_slots(it, fr, state)[what]
+    v = it.lookup(nm, fr)
+    return v if f_ is None else v.fields.get(f_)
+
+
+def slot_set(it, fr, state, what, val):
+    nm, f_ = acc_slots(it, fr, state)[what]
+    if f_ is None:
+        fr.set(nm, val)
+    else:
+        it.lookup(nm, fr).setattr(f_, val)
+
+
+
 def blocks_contract(it, reader, state, d=None, ctxobj=None, node=None, prefix='C03/parse_v3'):
     """loop rule for the block scanner GreedyRange(Struct('tag'/Bytes(8), 'data'/Select(Aligned(8, Prefixed(Int64ul,
     GreedyBytes)), Prefixed(Int64ul, GreedyBytes)))) over the ghost block layout: nb blocks at offsets bo(j) with payload
@@ -339,10 +382,11 @@ def block_step(it, stmt, fr, blocks, state, prefix):
     ctx = it.ctx
     p = state['parser']
     mod = it.repo.import_module(MOD)
+    acc_slots(it, fr, state)          # resolved at the loop's entry, where both accumulators still have their initial values
     if not ctx.branch(z3.Bool('block.inductive_step')):
         # after the loop: accumulators are whatever the fold produced (opaque); continue with the log loop
-        fr.set('log_events', OpaqueSeq('loglist'))
-        fr.set('log_strings', OpaqueVal('logstrings', ('after-blocks',)))
+        slot_set(it, fr, state, 'log_events', OpaqueSeq('loglist'))
+        slot_set(it, fr, state, 'log_strings', OpaqueVal('logstrings', ('after-blocks',)))
         return True
     b = z3.Int('block.b')
     ctx.assume(z3.And(b >= 0, b < blocks.length))
@@ -352,7 +396,7 @@ def block_step(it, stmt, fr, blocks, state, prefix):
            'kernel_binaries': OpaqueVal('acc', ('kernel_binaries',)), 'dyld': OpaqueVal('acc', ('dyld_modules',)),
            'log_events': OpaqueVal('acc', ('log_events',)), 'log_strings': OpaqueVal('acc', ('log_strings',))}
     rec = []
-    finalize = install_accumulator_model(it, fr, p, acc, rec, ctx)
+    finalize = install_accumulator_model(it, fr, p, acc, rec, ctx, state)
     it.assign(stmt.target, blk, fr)
     try:
         it.exec_loop_body(stmt.body, fr)
@@ -424,7 +468,7 @@ def describe_plist_item(v):
     return 'unknown', None
 
 
-def install_accumulator_model(it, fr, p, acc, rec, ctx):
+def install_accumulator_model(it, fr, p, acc, rec, ctx, state):
     """bind the loop's accumulators to recording models (arbitrary prior contents)"""
     class KextDict:
         def py_getitem(self, it_, k, node=None):
@@ -453,8 +497,8 @@ def install_accumulator_model(it, fr, p, acc, rec, ctx):
     p.fields['kernel_extensions'] = KextDict()
     p.fields['dyld_modules'] = DyldDict()
     p.fields['trace_codes'] = acc['trace_codes']
-    fr.set('log_events', AccList('log_events', rec))
-    fr.set('log_strings', acc['log_strings'])
+    slot_set(it, fr, state, 'log_events', AccList('log_events', rec))
+    slot_set(it, fr, state, 'log_strings', acc['log_strings'])
     # attribute / variable assignments are observed afterwards by comparing with these initial objects
     watch = {'trace_codes': p.fields['trace_codes'], 'processes': p.fields.get('processes'), 'images': p.fields.get('images')}
     orig_setattr = it.lib.setattr_
@@ -474,7 +518,7 @@ def install_accumulator_model(it, fr, p, acc, rec, ctx):
             toks = getattr(tc, 'toks', ())
             okshape = len(toks) == 2 and toks[0] == ('atom', z3.Int('acc.trace_codes')) and toks[1][0] == 'atom'
             rec.append(('trace_codes', how if okshape else 'other', None))
-        ls = it.lookup('log_strings', fr)
+        ls = slot_get(it, fr, state, 'log_strings')
         if ls is not acc['log_strings']:
             rec.append(('log_strings', 'assign-inverted-StringIndex' if inverted_string_index(ls) else 'other',
                         inverted_string_index(ls) or None))
@@ -538,7 +582,7 @@ def log_step(it, stmt, fr, loglist, state, prefix):
     # the yielded record is the decoded one, field for field: the container adds nothing to it and changes nothing in it
     untouched = o is not None and set(o.fields) == set(state['log_fields']) and all(o.fields[k] is v for k, v in state['log_fields'].items())
     ctx.oblige(prefix + '/logs.step-yields-the-record-unmodified', z3.BoolVal(bool(untouched)))
-    ctx.oblige(prefix + '/logs.step-strings-resolved-through-the-index', z3.BoolVal(len(calls) == 1 and calls[0][1] is it.lookup('log_strings', fr)))
+    ctx.oblige(prefix + '/logs.step-strings-resolved-through-the-index', z3.BoolVal(len(calls) == 1 and calls[0][1] is slot_get(it, fr, state, 'log_strings')))
     named = z3.And(libattr.StrNonEmpty(z3.Int('log.process')), z3.Int('log.tid') != 0)
     wrote = len(T.writes) > w0t
     if wrote:
